@@ -775,43 +775,75 @@ func c14R8(c *Ctx) {
 	}
 	c.verdict(len(why) == 0, rule, "copy-helper", c.pos(helper.Pos()), c.fnName(helper)+" returns a new object for "+strings.Join(names, ", ")+" and new maps / lists for the containers it has a case for",
 		c.fnName(helper)+" does not copy deeply: "+strings.Join(why, "; "))
-	// Prepare: the caller's pointer is only dereferenced
+	// Prepare: the caller's pointer is only dereferenced — by Prepare itself, or by the one function it delegates the
+	// copying to (`workflow := copyWorkflowForPreparation(callersWorkflow)`)
 	param := prep.Params[len(prep.Params)-2]
 	for _, p := range prep.Params {
 		if strings.HasSuffix(p.Type().String(), "workflow.Workflow") {
 			param = p
 		}
 	}
+	site, sp := prep, param
 	var leaks []string
 	var own *ssa.Alloc
 	var ownStore ssa.Instruction
-	for _, ref := range *param.Referrers() {
-		switch x := ref.(type) {
-		case *ssa.FieldAddr, *ssa.DebugRef:
-		case *ssa.UnOp:
-			if x.Op != token.MUL {
-				leaks = append(leaks, c.instrPos(x))
-				continue
-			}
-			for _, r2 := range *x.Referrers() {
-				if st, ok := r2.(*ssa.Store); ok && st.Val == ssa.Value(x) {
-					if al, ok := st.Addr.(*ssa.Alloc); ok {
-						own, ownStore = al, st
+	for depth := 0; depth < 2; depth++ {
+		leaks, own, ownStore = nil, nil, nil
+		var delegateFn *ssa.Function
+		var delegateParam *ssa.Parameter
+		for _, ref := range *sp.Referrers() {
+			switch x := ref.(type) {
+			case *ssa.FieldAddr, *ssa.DebugRef:
+			case *ssa.UnOp:
+				if x.Op != token.MUL {
+					leaks = append(leaks, c.instrPos(x))
+					continue
+				}
+				for _, r2 := range *x.Referrers() {
+					if st, ok := r2.(*ssa.Store); ok && st.Val == ssa.Value(x) {
+						if al, ok := st.Addr.(*ssa.Alloc); ok {
+							own, ownStore = al, st
+						}
 					}
 				}
+			case *ssa.Call:
+				f := x.Common().StaticCallee()
+				if f != nil && isRepoFn(f) && len(f.Blocks) > 0 && f.Signature.Recv() == nil && delegateFn == nil {
+					for k, a := range x.Common().Args {
+						if a == ssa.Value(sp) && k < len(f.Params) {
+							delegateFn, delegateParam = f, f.Params[k]
+						}
+					}
+					if delegateFn != nil {
+						continue
+					}
+				}
+				leaks = append(leaks, c.instrPos(ref))
+			default:
+				leaks = append(leaks, c.instrPos(ref))
 			}
-		default:
-			leaks = append(leaks, c.instrPos(ref))
 		}
+		if own == nil && delegateFn != nil && len(leaks) == 0 {
+			site, sp = delegateFn, delegateParam
+			continue
+		}
+		break
 	}
-	c.verdict(len(leaks) == 0 && own != nil, rule, "caller-pointer", c.pos(prep.Pos()), "Prepare only dereferences the caller's *Workflow (field reads and one struct copy)",
+	c.verdict(len(leaks) == 0 && own != nil, rule, "caller-pointer", c.pos(prep.Pos()), "the caller's *Workflow is only dereferenced (field reads and one struct copy, in "+c.fnName(site)+")",
 		fmt.Sprintf("Prepare hands the caller's *Workflow on (or keeps it) at %s: callees annotate the caller's expression objects", strings.Join(leaks, ", ")))
 	if own == nil {
 		return
 	}
-	// first use of the private value by a callee
+	// where the private value becomes visible: the callees that get it, or (in a copying function) its return
 	var uses []ssa.Instruction
-	eachInstr(prep, func(r instrRef) {
+	eachInstr(site, func(r instrRef) {
+		if ret, ok := r.I.(*ssa.Return); ok && site != prep {
+			for _, v := range ret.Results {
+				if v == ssa.Value(own) {
+					uses = append(uses, ret)
+				}
+			}
+		}
 		cc := callCommon(r.I)
 		if cc == nil {
 			return
@@ -822,15 +854,51 @@ func c14R8(c *Ctx) {
 			}
 		}
 	})
+	// flowsOnlyIntoHelper: the loaded field value is an argument of the copy helper, or of a wrapper whose parameter goes
+	// nowhere but into the copy helper
+	var flowsOnlyIntoHelper func(v ssa.Value, d int) bool
+	flowsOnlyIntoHelper = func(v ssa.Value, d int) bool {
+		if v.Referrers() == nil || d > 2 {
+			return false
+		}
+		for _, r3 := range *v.Referrers() {
+			switch y := r3.(type) {
+			case *ssa.DebugRef:
+			case *ssa.MakeInterface:
+				if !flowsOnlyIntoHelper(y, d) {
+					return false
+				}
+			case *ssa.Call:
+				f := y.Common().StaticCallee()
+				if f == helper {
+					continue
+				}
+				if f == nil || !isRepoFn(f) || len(f.Blocks) == 0 {
+					return false
+				}
+				okw := false
+				for k, a := range y.Common().Args {
+					if a == v && k < len(f.Params) && flowsOnlyIntoHelper(f.Params[k], d+1) {
+						okw = true
+					}
+				}
+				if !okw {
+					return false
+				}
+			default:
+				return false
+			}
+		}
+		return true
+	}
 	for _, fname := range []string{"Steps", "Outputs", "Output"} {
 		f := c.field(pkgWorkflow, "Workflow", fname)
 		if f == nil {
 			continue
 		}
 		key := "copied:" + fname
-		// reads of the caller's field flow only into the helper
 		okRead := true
-		for _, ref := range *param.Referrers() {
+		for _, ref := range *sp.Referrers() {
 			fa, ok := ref.(*ssa.FieldAddr)
 			if !ok || fieldAddrVar(fa) != f {
 				continue
@@ -843,30 +911,13 @@ func c14R8(c *Ctx) {
 					}
 					continue
 				}
-				for _, r3 := range *ld.Referrers() {
-					cl, ok := r3.(*ssa.Call)
-					if _, dbg := r3.(*ssa.DebugRef); dbg {
-						continue
-					}
-					// any-typed fields are passed as they are, map-typed ones are boxed first
-					if mi, isMI := r3.(*ssa.MakeInterface); isMI {
-						for _, r4 := range *mi.Referrers() {
-							c4, ok := r4.(*ssa.Call)
-							if !ok || c4.Common().StaticCallee() != helper {
-								okRead = false
-							}
-						}
-						continue
-					}
-					if !ok || cl.Common().StaticCallee() != helper {
-						okRead = false
-					}
+				if !flowsOnlyIntoHelper(ld, 0) {
+					okRead = false
 				}
 			}
 		}
-		// the private value gets the helper's result before anyone sees it
 		var st *ssa.Store
-		eachInstr(prep, func(r instrRef) {
+		eachInstr(site, func(r instrRef) {
 			s2, ok := r.I.(*ssa.Store)
 			if !ok {
 				return
@@ -890,10 +941,10 @@ func c14R8(c *Ctx) {
 				}
 			}
 		}
-		c.verdict(okRead && okStore, rule, key, c.pos(prep.Pos()), "Prepare's own Workflow value gets "+c.fnName(helper)+"("+fname+" of the caller's workflow) before any callee sees it; the caller's "+fname+" is read for nothing else",
+		c.verdict(okRead && okStore, rule, key, c.pos(site.Pos()), "the preparation's own Workflow value gets "+c.fnName(helper)+"("+fname+" of the caller's workflow) before anyone else sees it; the caller's "+fname+" is read for nothing else",
 			fmt.Sprintf("Prepare works on the caller's %s (read only to copy=%v, copy stored before first use=%v): the expression objects in it are annotated in place", fname, okRead, okStore))
 	}
-	c.minCount(rule, "callees that get Prepare's own workflow", len(uses), 3)
+	c.minCount(rule, "places where the preparation's own workflow becomes visible", len(uses), 1)
 }
 
 // copyHelperCases: for a function `f(v any) any`, the named struct types *T for which a type-assertion case returns a
